@@ -213,6 +213,9 @@ def gen_registry_stub(src_root):
 def inject(scratch, builds):
     """Copy harness files next to their anchor file and append the cfg(kani) child module."""
     info = {}
+    # the builds that COPY agent sources (slice, agentshim) are assembled first, from the pristine
+    # copy of the working tree, before harness modules are appended to those sources for `agent`
+    builds = sorted(builds, key=lambda b: 0 if b in ("slice", "agentshim") else 1)
     for b in builds:
         spec = BUILDS[b]
         if b == "slice":
@@ -224,6 +227,9 @@ def inject(scratch, builds):
             info["agentshim"] = slice_build.assemble_agentshim(scratch, VERIF)
         cdir = os.path.normpath(os.path.join(scratch.src, spec["dir"]))
         hdir = os.path.join(VERIF, "harness", b)
+        # stun-rs harness modules need the feature-gated kinds: keep them out when the same copy of
+        # stun-rs is compiled (without features) as a dependency of the `agent` build
+        cfgs = "kani" if not spec["features"] else "all(kani, %s)" % ", ".join('feature = "%s"' % f for f in spec["features"].split(","))
         for anchor, hf in spec["inject"]:
             src = os.path.join(hdir, hf)
             if not os.path.exists(src):
@@ -233,7 +239,7 @@ def inject(scratch, builds):
             shutil.copy(src, os.path.join(ddir, hf))
             mod = hf[:-3]
             with open(apath, "a") as f:
-                f.write('\n#[cfg(kani)]\n#[path = "%s"]\npub(crate) mod %s;\n' % (hf, mod))
+                f.write('\n#[cfg(%s)]\n#[path = "%s"]\npub(crate) mod %s;\n' % (cfgs, hf, mod))
         # shared support files live in src/ (crate root) and are `#[path]`-included by harnesses
         sdir = os.path.join(cdir, "src")
         supports = []
@@ -248,11 +254,11 @@ def inject(scratch, builds):
                 f.write(txt)
             info["registry"] = names
         with open(os.path.join(cdir, "src", "lib.rs"), "a") as f:
-            f.write('\n#[cfg(kani)]\n#[path = "verif_cfg.rs"]\npub(crate) mod verif_cfg;\n')
+            f.write('\n#[cfg(%s)]\n#[path = "verif_cfg.rs"]\npub(crate) mod verif_cfg;\n' % cfgs)
             for sp in supports:
-                f.write('#[cfg(kani)]\n#[path = "%s"]\npub(crate) mod %s;\n' % (sp, sp[:-3]))
+                f.write('#[cfg(%s)]\n#[path = "%s"]\npub(crate) mod %s;\n' % (cfgs, sp, sp[:-3]))
             if b == "stunrs":
-                f.write('#[cfg(kani)]\n#[path = "verif_registry.rs"]\npub(crate) mod verif_registry;\n')
+                f.write('#[cfg(%s)]\n#[path = "verif_registry.rs"]\npub(crate) mod verif_registry;\n' % cfgs)
     return info
 
 
